@@ -26,6 +26,14 @@ func init() {
 	for _, n := range []string{"sort.Slice", "sort.SliceStable", "slices.SortFunc", "slices.SortStableFunc", "slices.Sort"} {
 		intrinsics[n] = sortSlice
 	}
+	intrinsics["context.Context.Err"] = func(x *Exec, s *State, e *ast.CallExpr, c callee) (Val, bool) {
+		x.eval(s, c.recvX)
+		r := s.freshVal("ctxerr", x.typeOf(e))
+		if s.ctxDone[exprString(c.recvX)] {
+			s.assume(mkNot(mkEq(r.Tag, "0"))) // Err is non-nil once Done is closed
+		}
+		return r, true
+	}
 	intrinsics["errors.As"] = errorsAs
 	intrinsics["github.com/go-faster/errors.As"] = errorsAs
 	for _, n := range []string{"Add", "Done", "Wait"} {
